@@ -48,6 +48,8 @@ def light_zoo():
         ("bytes", [b"alpha", bytearray(b"beta"), b"gamma"] + [bytes([i, i + 1]) for i in range(120)]),
         ("bytes2", {"k": [bytes([i]) * 3 for i in range(150)]}),
         ("nested-dump", [b"one", b"two", U.NestedDump(7), b"three", [U.NestedDump(8), b"four"]]),
+        ("conditional-ok", [U.SometimesRaises(True), {"k": U.SometimesRaises(True)}]), ("conditional-refusing", {"h": U.SometimesRaises(False)}),
+        ("stopiteration", [1, U.RaisesStopIteration(), 2]),
     ]
 
 
@@ -68,8 +70,13 @@ def build_specs(ctx, workdir):
     for name, o in objs:
         try:
             blob = pickle.dumps(o)
+        except Exception:
+            continue
+        try:
             data = dumps(o)
         except Exception:
+            # a dump that is refused is a call with a result too (the same refusal, whatever ran before)
+            specs.append(("dumps", blob)); names.append(f"dumps-refused:{name}")
             continue
         untrusted = get_untrusted_types(data=data)
         specs.append(("dumps", blob)); names.append(f"dumps:{name}")
@@ -79,6 +86,10 @@ def build_specs(ctx, workdir):
         if untrusted:
             specs.append(("loads", data, [])); names.append(f"loads-refused:{name}")
             specs.append(("visualize", data, "untrusted", None)); names.append(f"visualize-untrusted:{name}")
+    # objects that pickle cannot carry into a spec (their own __reduce__ refuses): built from an expression
+    for expr in ("[U.SometimesRaises(True), {'k': U.SometimesRaises(True)}]", "{'h': U.SometimesRaises(False)}", "[U.SometimesRaises(False)]",
+                 "[1, U.RaisesStopIteration(), 2]", "U.RaisesGetstate()", "[U.Plain(1, 2), U.RaisesReduce()]"):
+        specs.append(("dumps-expr", expr)); names.append(f"dumps-expr:{expr[:40]}")
     # archives in the layouts of older protocols: their loaders are part of "the registries are filled once at import"
     for name, o in objs:
         if name not in ("ft", "gen", "dict", "partial", "pipe"):
